@@ -202,3 +202,28 @@ def build6(m):
                    ],
                    loops={0: Loop(invariant=['is_first_line == (_k0 == 0)'])},
                    prop=['C10', 'C09']))
+
+
+def build7(m):
+    """Blocks that are never re-broken (C10) and are written back from their retained spelling (C09):
+    ATX headings, thematic breaks, fenced code."""
+    MR = TRef('MarkdownRendererObj')
+    TOKL = TList(TRef('Token'))
+    HT = TRef('HeadingTok')
+    m.classes['HeadingTok'] = {'children': TOKL, 'level': INT, 'closing_sequence': STR}
+    m.add(Contract(MOD + ':MarkdownRenderer.render_heading', [('self', MR), ('token', HT), ('max_line_length', TOpt(INT))],
+                   returns=TList(STR),
+                   requires=['1 <= token.level', 'token.level <= 6'],
+                   call_asserts={MOD + ':MarkdownRenderer.span_to_lines#lines': [
+                       # C10: an ATX heading is one line whatever the limit: its text is laid out without a limit
+                       ('is_none(arg_max_line_length)', 'C10')]},
+                   ensures=[('len(result) == 1', ['C10', 'C09']),
+                            # C09: the marker is one '#' per level, then the text, then the retained closing sequence
+                            ("result[0].startswith('#' * token.level)", 'C09'),
+                            ("implies(token.closing_sequence != '', result[0].endswith(' ' + token.closing_sequence))", 'C09')],
+                   prop=['C10', 'C09']))
+    TB = TRef('ThematicBreakObj')
+    m.classes.setdefault('ThematicBreakObj', {'line': STR})
+    m.add(Contract(MOD + ':MarkdownRenderer.render_thematic_break', [('self', MR), ('token', TB), ('max_line_length', TOpt(INT))],
+                   returns=TList(STR),
+                   ensures=[('len(result) == 1 and result[0] == token.line', ['C09', 'C10'])], prop=['C09', 'C10']))
